@@ -11,6 +11,7 @@
    the machine (Proofs/CtxProofs.v: `Inv`, `step_inv`). *)
 From Coq Require Import ZArith NArith Bool List.
 From PcoreV Require Import Model.Base Model.Ctx Proofs.CtxProofs Proofs.CtxIsolation Proofs.CtxTermination.
+From PcoreV Require Import Model.CtxGid Proofs.CtxGidProofs.
 Import ListNotations.
 Local Open Scope nat_scope.
 
@@ -337,3 +338,49 @@ Example C14_nonvacuous_definitions :
   [[(4%N, Some [LFound 10%Z; LMissing; LMissing])];
    [(3%N, Some [LFound 10%Z; LFound 20%Z; LMissing])]].
 Proof. vm_compute. reflexivity. Qed.
+
+(* ---- the goroutine id: threadlocal/gid.go:14 getg() -------------------------------------------------------------- *)
+
+(* The machine above indexes the goroutine-local tables by the goroutine.  In gid.go the index is what getg() reads
+   from the first line of runtime.Stack, "goroutine <id> [<status>]:", through a buffer of 64 bytes.  For EVERY
+   goid the runtime can hand out (1 .. 2^63-1; it numbers the goroutines of a process consecutively) and every
+   rest of the stack text, getg() returns exactly that goid, without overflow and without the panic of gid.go:28:
+   the numeral (at most 19 digits) lies inside the buffer behind the 10 bytes of "goroutine ". *)
+Theorem C14_getg_exact :
+  forall (id : N) (tail : list N),
+    (0 < id)%N -> (id <= max_goid)%N -> getg id tail = Some (Z.of_N id).
+Proof. exact getg_exact. Qed.
+Print Assumptions C14_getg_exact.
+
+(* the same for any buffer length that holds prefix and numeral - and only for those (see the example below) *)
+Theorem C14_getg_of_exact :
+  forall (buflen : nat) (id : N) (tail : list N),
+    (0 < id)%N -> (id <= max_goid)%N -> prefix_len + length (digits id) <= buflen ->
+    getg_of buflen (stack_text id tail) = Some (Z.of_N id).
+Proof. exact getg_of_exact. Qed.
+Print Assumptions C14_getg_of_exact.
+
+(* Hence the keys of the tables of different goroutines differ: with any injective numbering `goid` of the
+   goroutines by the runtime, the key read by goroutine g exists and equals the key read by h only if g = h - the
+   table of gid.go indexed by getg() is the table of Model/Ctx.v indexed by the goroutine, so no goroutine ever
+   reads or replaces the current context of another one through a shared key. *)
+Theorem C14_getg_keys_distinct :
+  forall (goid : nat -> N) (tail : nat -> list N),
+    (forall g, 0 < goid g <= max_goid)%N -> (forall g h, goid g = goid h -> g = h) ->
+    forall g h, (exists k, getg (goid g) (tail g) = Some k) /\
+                (getg (goid g) (tail g) = getg (goid h) (tail h) -> g = h).
+Proof. exact getg_keys_distinct. Qed.
+Print Assumptions C14_getg_keys_distinct.
+
+(* non-vacuity: the model computes ids of 1 to 19 digits; and the buffer length matters - with 16 bytes the
+   numeral of a goid of seven digits is cut and the goroutines 1000160 .. 1000169 would share one key *)
+Example C14_nonvacuous_getg :
+  map (fun id => getg id [91; 114; 117; 110; 110; 105; 110; 103; 93; 58; 10]%N)
+      [7; 999999; 1000000; 1000160; 1000161; 9223372036854775807]%N =
+  [Some 7; Some 999999; Some 1000000; Some 1000160; Some 1000161; Some 9223372036854775807]%Z /\
+  stack_text 1000160 [91; 114; 117; 110; 110; 105; 110; 103; 93; 58; 10]%N =
+  [103; 111; 114; 111; 117; 116; 105; 110; 101; 32; 49; 48; 48; 48; 49; 54; 48; 32;
+   91; 114; 117; 110; 110; 105; 110; 103; 93; 58; 10]%N /\
+  getg_of 16 (stack_text 1000160 []) = Some 100016%Z /\ getg_of 16 (stack_text 1000161 []) = Some 100016%Z /\
+  getg_of 10 (stack_text 5 []) = None.
+Proof. vm_compute. auto. Qed.
